@@ -2,6 +2,8 @@
 
 package main
 
+import "strconv"
+
 // A Go transcription of coq/Lex/Lexer.v (step / run), used ONLY to pre-screen and prioritise
 // cases; the verdict that counts is computed by Rocq on the same bytes, and the two verdicts are
 // compared on every case Rocq evaluates (a disagreement is reported as a broken tie).
@@ -39,11 +41,7 @@ func lexRun(b []byte) lexSummary {
 	tok := func() { words++; cur++ }
 	ev := func(c byte) {
 		st = append(st, c)
-		if cur > 9 {
-			sh = append(sh, '9', '+')
-		} else {
-			sh = append(sh, byte('0'+cur))
-		}
+		sh = strconv.AppendInt(sh, int64(cur), 10)
 		sh = append(sh, c)
 		cur = 0
 	}
